@@ -190,6 +190,13 @@ let handle toks =
     let r = select_rules { rc_homestead = opt_of hs; rc_eip150 = opt_of e150; rc_eip155 = opt_of e155; rc_eip158 = opt_of e158;
                            rc_byzantium = opt_of byz } (zs num) in
     String.concat " " (List.map string_of_bool_ [r.r_homestead; r.r_eip150; r.r_eip155; r.r_eip158; r.r_byzantium])
+  (* ---- third wave ---- *)
+  | ["blockhash"; number; num] ->
+    let tag = Z.pow (zs "2") (zs "255") in
+    let gh n = Z.add tag n in
+    let sh v = (match v with Z0 -> "0x0" | _ -> "hash " ^ hz (Z.sub v tag)) in
+    sh (op_BLOCKHASH gh (zs number) (zs num)) ^ " s=" ^ sh (spec_BLOCKHASH gh (zs number) (zs num))
+  | ["memcall"; io; is; ro; rs] -> show_one (run_memorySize (memoryCall (zs io) (zs is) (zs ro) (zs rs)))
   | _ -> "driver-error unknown-command"
 
 let () = self_test b2n; serve handle
